@@ -451,6 +451,43 @@ def run(ctx):
                    copycontract.is_fresh(st.value) is not False,
                    "the array returned for one model shares the stack's BondList object", st.lineno)
 
+    # the constructor that Atom.copy() and every `array[i]` / get_atom() go through takes the caller's coordinates over:
+    # they must be copied there (np.array copies; np.asarray / copy=False hand out a view of the array's row)
+    from ..exprnorm import summarize
+    ai = s.func("Atom.__init__")
+    sm_ai = summarize(ai)
+    stored = [c.args[2] for c in ast.walk(sm_ai.env.get("self", ast.Constant(None))) if isinstance(c, ast.Call) and call_name(c) == "__setattr__"
+              and isinstance(c.args[1], ast.Constant) and c.args[1].value == "coord"]
+    ctx.need(len(stored) == 1, "Atom.__init__ stores self.coord once")
+    cpar = param_names(ai)[1]
+
+    def copies(v):
+        if not isinstance(v, ast.Call):
+            return False
+        fn = call_name(v) or ""
+        kw = {k.arg: k.value for k in v.keywords}
+        no_copy_off = "copy" not in kw or (isinstance(kw["copy"], ast.Constant) and kw["copy"].value is True)
+        if fn in ("np.array", "numpy.array") and v.args and isinstance(v.args[0], ast.Name) and v.args[0].id == cpar:
+            return no_copy_off and "subok" not in kw
+        if fn in ("np.copy", "numpy.copy") and v.args and isinstance(v.args[0], ast.Name) and v.args[0].id == cpar:
+            return True
+        if isinstance(v.func, ast.Attribute) and v.func.attr == "copy" and not v.args:
+            return True
+        if isinstance(v.func, ast.Attribute) and v.func.attr == "astype":
+            return no_copy_off and copies_or_param(v.func.value)
+        return False
+
+    def copies_or_param(v):
+        return copies(v) or isinstance(v, ast.Name) and v.id == cpar or \
+            isinstance(v, ast.Call) and (call_name(v) or "") in ("np.asarray", "np.asanyarray") and bool(v.args) and copies_or_param(v.args[0])
+    ctx.ob("R2.atom-owns-coord", ATOMS, "Atom.__init__", "self.coord = " + ast.unparse(stored[0])[:60], copies(stored[0]),
+           "an Atom must own its coordinates: built from a row of an array (array[i], get_atom, iteration) or from another atom "
+           "(copy) it would otherwise be a view, and editing one changes the other", ai.lineno)
+
+    # equal_annotations (behind stack(), stack[i] = array, ==) compares float annotations NaN-tolerantly: all float widths
+    from ..lints import dtype_family_tests
+    dtype_family_tests(ctx, ATOMS, "R2.dtype-family-test")
+
     # ---------------- R3 slice(i, i + 1) ----------------------------------
     n_sl = 0
     for qual, f in s.funcs.items():
@@ -495,6 +532,10 @@ def run(ctx):
 
 
 MUTANTS = [
+    Mutant("nan-tolerance-float64-only", ATOMS, "                if np.issubdtype(self._annot[name].dtype, np.floating)\n",
+           "                if np.issubdtype(self._annot[name].dtype, float)\n", "R2.dtype-family-test"),
+    Mutant("atom-coord-asarray", ATOMS, "        coord = np.array(coord, dtype=np.float32)\n", "        coord = np.asarray(coord, dtype=np.float32)\n", "R2.atom-owns-coord"),
+    Mutant("atom-coord-no-copy", ATOMS, "        coord = np.array(coord, dtype=np.float32)\n", "        coord = np.array(coord, dtype=np.float32, copy=False)\n", "R2.atom-owns-coord"),
     Mutant("subarray-drops-bonds", ATOMS,
            "        if self._bonds is not None:\n            new_object._bonds = self._bonds[index]\n", "",
            "R1.constructor"),
